@@ -2375,7 +2375,19 @@ static ASTNode *parse_expression(Stage1Parser *p) {
      * For each iteration: first consume all dot-access on expr, then check
      * for infix binary operator. If found, parse right operand and loop again.
      */
+    int chain_length = 0;  /* postfix and infix operators applied to this expression so far */
     for (;;) {
+        /* Every postfix/infix operator adds a level to a left-deep tree that the
+         * later passes walk recursively: bound it like any other nesting. */
+        if (chain_length > MAX_RECURSION_DEPTH) {
+            Token *deep_tok = current_token(p);
+            parser_error(p, deep_tok ? deep_tok->line : 0, deep_tok ? deep_tok->column : 0,
+                    "Error at line %d, column %d: Expression has more than %d chained operators; split it up.\n",
+                    deep_tok ? deep_tok->line : 0, deep_tok ? deep_tok->column : 0, MAX_RECURSION_DEPTH);
+            free_ast(expr);
+            p->recursion_depth--;
+            return NULL;
+        }
         /* Handle field access or union construction:
          * - obj.field -> field access
          * - UnionName.Variant { ... } -> union construction
@@ -2391,6 +2403,7 @@ static ASTNode *parse_expression(Stage1Parser *p) {
             int line = dot_tok->line;
             int column = dot_tok->column;
             advance(p);  /* consume '.' */
+            if (++chain_length > MAX_RECURSION_DEPTH) break;  /* reported at the top of the outer loop */
 
             /* Check if this is a tuple index: tuple.0, tuple.1, etc. */
             if (match(p, TOKEN_NUMBER)) {
@@ -2518,6 +2531,8 @@ static ASTNode *parse_expression(Stage1Parser *p) {
             }
         }
 
+        if (chain_length > MAX_RECURSION_DEPTH) continue;  /* report at the top of the loop */
+
         /* Check for infix binary operator: expr op primary */
         {
             Token *cur = current_token(p);
@@ -2543,6 +2558,7 @@ static ASTNode *parse_expression(Stage1Parser *p) {
                 bin_node->as.prefix_op.args[1] = right;
                 bin_node->as.prefix_op.arg_count = 2;
                 expr = bin_node;
+                chain_length++;
                 continue;  /* loop back for more dot-access or infix ops */
             }
         }
